@@ -12,17 +12,20 @@ one() {
   A=$(/verif/bin/rosvc affected -repo $W -base $B 2>/dev/null | tail -1)
   case "$A" in
     NONE) echo "$id MISSED $desc (no function under contract is affected)"; rm -rf $W; return;;
-    ALL|"") ONLY="";;
+    "") echo "$id INCOMPLETE $desc"; rm -rf $W; return;;
+    ALL) ONLY="";;
     *) ONLY="-only $A";;
   esac
-  out=$(timeout 1500 /verif/bin/rosvc fn -repo $W $ONLY 2>&1 | grep -E "^   (refuted|undischarged|broken|unknown|timeout) " | grep -v -F -f /tmp/rosvc_known_open.txt | awk '{print $2}' | head -4 | tr '\n' ' ')
+  raw=$(timeout 1500 /verif/bin/rosvc fn -repo $W $ONLY 2>&1)
+  if ! echo "$raw" | grep -q "^SWEEP-DONE"; then echo "$id INCOMPLETE $desc"; rm -rf $W; return; fi
+  out=$(echo "$raw" | grep -E "^   (refuted|undischarged|broken|unknown|timeout) " | grep -v -F -f /tmp/rosvc_known_open.txt | awk '{print $2}' | head -4 | tr '\n' ' ')
   if [ -z "$out" ]; then echo "$id MISSED $desc"; else echo "$id CAUGHT $desc :: $out"; fi
   rm -rf $W
 }
 n=0
 for id in "$@"; do
   one $id &
-  n=$((n+1)); if [ $((n % 4)) = 0 ]; then wait; fi
+  n=$((n+1)); if [ $((n % ${PAR:-4})) = 0 ]; then wait; fi
 done
 wait
 rm -rf $B
